@@ -395,6 +395,9 @@ class Transformer(NamedTuple):
         if not self.mutations:
             return content
         lines = content.splitlines(keepends=True)
+        if lines and not lines[-1].endswith('\n'):
+            # a line inserted below the last one must not be glued to it
+            lines[-1] += '\n'
         self.mutations.sort(key=lambda x: x.key, reverse=True)
         for mutation in self.mutations:
             mutation.apply(lines)
